@@ -4,6 +4,7 @@
 -/
 import PPV.Model.NumOps
 import PPV.Gen.KernelRun
+import PPV.Gen.ComponentRun
 import PPV.Gen.Idx
 import PPV.Model.AssembleRun
 import PPV.Model.OptionsRun
@@ -24,7 +25,10 @@ def handle (line : String) : String :=
   | "kernel" :: name :: args =>
     match PPV.Gen.KernelRun.run name (args.map hexToFloat).toArray with
     | some r => " ".intercalate (r.toList.map floatToHex)
-    | none => "bad-kernel"
+    | none =>
+      match PPV.Gen.ComponentRun.run name (args.map hexToFloat).toArray with
+      | some r => " ".intercalate (r.toList.map floatToHex)
+      | none => "bad-kernel"
   | "asm" :: mode :: n :: b :: _ =>
     -- the rest of the line after the 4th token is the `|`-separated field list
     let rest := (line.trimAscii.toString.splitOn "::").getD 1 ""
